@@ -2,11 +2,11 @@
 """Writes the Reapers_*.cfg files (one table of constants, so that a new constant is added in one place).
 Run inside spec/:  python3 Reapers_cfgs.py"""
 base = dict(Claims='{"c1", "c2"}', MaxNow=1000, MaxFaults=1, MaxEnv=2, MaxLen=30, NoopEvery=1, OffBefore='{1, 500}', OffAfter='{0, 1}',
-            EA=600, LT=300, RT=900, TolReady=120, TolDisk=60,
+            EA=600, LT=300, RT=900, TolReady=120, TolUnk=90, TolDisk=60, UnknownFirst='TRUE',
             PoolBg='{0}', OtherBg='{0}', MaxBad=0, MaxDel=0, ReadyVals='{"True", "False"}',
             RoundedClock='{}', ExpireSlack=0, ExpireNever='"check"', GcOnProvListError='"abort"', GcOnLookupError='"skip"',
-            GcReady='"check"', NotFoundAsEmpty='{}',
-            LiveSlack=0, RepairSlack=0, RepairExtra=0, RepairScope='"pool"', RepairOnListError='"abort"',
+            GcReady='"check"', NotFoundAsEmpty='{}', GcReadOrder='"claimsFirst"', LiveGate='"registered"',
+            LiveSlack=0, RepairSlack=0, RepairTolBy='"policy"', RepairExtra=0, RepairScope='"pool"', RepairOnListError='"abort"',
             RepairTerminating='"count"')
 order = list(base)
 INV = "INVARIANTS TypeOK Inv_C16_Expiration Inv_C16_GarbageCollection Inv_C16_Liveness Inv_C16_Repair\nPROPERTIES Act_C16_NoTriggerNoReap\n"
@@ -17,7 +17,7 @@ def write(name, comment, over, view=True, inv=INV):
     d = dict(base)
     d.update(over)
     lines = ["\\* " + comment]
-    cuts = [0, 8, 13, 18, 25, len(order)]
+    cuts = [0, 8, 15, 20, 29, len(order)]
     for i in range(len(cuts) - 1):
         lines.append(("CONSTANTS " if i == 0 else "          ") + "  ".join("%s = %s" % (k, d[k]) for k in order[cuts[i]:cuts[i + 1]]))
     lines.append("SPECIFICATION Spec")
@@ -29,7 +29,9 @@ def write(name, comment, over, view=True, inv=INV):
 R3 = '{"True", "False", "Unknown"}'
 G11 = '{0, 1, 2, 3, 4, 5, 6, 7, 8, 9, 10}'
 write("MC", "exhaustive check of the closed model (history hidden by VIEW): a pool claim and a standalone claim with their nodes;\n\\* mechanism constants = the code's (documented) behaviour", {})
-write("MCLive", "exhaustive: an unregistered claim (liveness, expiration, later registration -> gc/repair)", dict(Claims='{"c3"}', MaxEnv=3, ReadyVals=R3))
+write("MCLive", "exhaustive: an unregistered claim (liveness, expiration; it joins with a Ready or NotReady node -> initialization, gc, repair)", dict(Claims='{"c3"}', MaxEnv=2))
+write("MCLiveDeep", "thorough tier: the unregistered claim with three environment steps and a node that may also report Ready=Unknown",
+      dict(Claims='{"c3"}', MaxEnv=3, ReadyVals=R3))
 write("MCGrid", "exhaustive: pool claim x pool sizes 1..11 (10 further nodes) x 0..3 of them unhealthy, 0..2 of those terminating, one flip",
       dict(Claims='{"c1"}', PoolBg=G11, MaxBad=3, MaxDel=2, MaxEnv=1, OffBefore='{1}', OffAfter='{0}'))
 write("MCCluster", "exhaustive: standalone claim judged against the whole cluster (nodes of a pool + unlabelled nodes)",
@@ -52,6 +54,9 @@ weak = [
     ("WeakGcLookup", "spec mutation (the tree before fix 1d47e5fbe): the collector continues after a failed Node lookup and deletes -> Inv_C16_GarbageCollection", dict(GcOnLookupError='"delete"')),
     ("WeakGcLookupNotFound", "spec mutation: a Node lookup failing with a NotFound-typed API error is read as 'no node' -> Inv_C16_GarbageCollection", dict(NotFoundAsEmpty='{"nodeLookup"}')),
     ("WeakGcReady", "spec mutation: Node readiness not consulted -> Inv_C16_GarbageCollection", dict(GcReady='"ignore"')),
+    ("WeakGcReadOrder", "spec mutation: the provider listing is taken before the NodeClaims are listed (a claim that joins in between is judged against a stale listing) -> Inv_C16_GarbageCollection", dict(GcReadOrder='"provFirst"')),
+    ("WeakLiveGate", "spec mutation: liveness keeps timing Registered claims until they are Ready (Initialized) -> Inv_C16_Liveness", dict(LiveGate='"ready"')),
+    ("WeakRepairTolByType", "spec mutation: the toleration is looked up by condition type only (first policy of that type) -> Inv_C16_Repair", dict(RepairTolBy='"type"', ReadyVals=R3)),
     ("WeakLive", "spec mutation: liveness one millisecond early -> Inv_C16_Liveness", dict(LiveSlack=1)),
     ("WeakLiveRound", "spec mutation: liveness compares a rounded clock reading -> Inv_C16_Liveness", dict(RoundedClock='{"live"}')),
     ("WeakRepairEarly", "spec mutation: repair one millisecond before the toleration elapsed -> Inv_C16_Repair", dict(RepairSlack=1)),
